@@ -36,6 +36,9 @@ REFUSALS = (ValueError, KeyError, OSError, RuntimeError, TypeError)
 # core.file object of a container empties (and removes) TOC groups, and re-creating them in a
 # later patch runs into the overlay defect of C01 (virtual group over a deletion marker).
 ANCHOR = ["pack", "zz/keep", b"k"]
+# Not needed any more since the C01 repairs are in /repo (f5de2ec, 27d2913); set PRE = [list(ANCHOR)]
+# to check a tree without them.
+PRE: List[Any] = []
 
 
 # ---------------------------------------------------------------------------- corpus
@@ -926,17 +929,18 @@ def run(ctx: vlib.Ctx):
         ts = templates(b, others[idx % len(others)])
         take = ts if not ctx.quick else [ts[idx % len(ts)]]
         for h in take:
-            cases += [(drv, [list(ANCHOR)] + h) for drv in DRIVERS]
+            cases += [(drv, PRE + h) for drv in DRIVERS]
         for r in range(ctx.budget(1, 3) if len(b) < 10000 else 1):
-            h = [list(ANCHOR)] + gen_history(rng, b, pool, rng.randint(6, ctx.budget(12, 18)), with_marker=rng.random() < 0.35)
+            h = PRE + gen_history(rng, b, pool, rng.randint(6, ctx.budget(12, 18)), with_marker=rng.random() < 0.35)
             drvs = DRIVERS if not ctx.quick else ["h5", ("ih5", "mf")[(idx + r) % 2]]
             cases += [(drv, h) for drv in drvs]
-    for h in marker_histories():
-        cases += [(drv, [list(ANCHOR)] + h) for drv in DRIVERS]
+    for i, h in enumerate(marker_histories()):
+        cases += [(drv, PRE + h) for drv in (DRIVERS if not ctx.quick else ["h5", ("ih5", "mf")[i % 2]])]
     first_x = len(cases)          # from here on: oracle only, no model
     xh = exotic_histories()
-    for h in (xh[:6] if ctx.quick else xh):        # quick: base container and patch; thorough: merged record too
-        cases += [(drv, [list(ANCHOR)] + h) for drv in ("ih5", "mf")]    # plain HDF5 has no marker to guard
+    for i, h in enumerate(xh[:6] if ctx.quick else xh):   # quick: base container and patch; thorough: merged record too
+        # plain HDF5 has no marker to guard; quick: one IH5 driver per history, alternating
+        cases += [(drv, PRE + h) for drv in (("ih5", "mf") if not ctx.quick else (("ih5", "mf")[i % 2],))]
     hist = [h for _, h in cases]
     import time as _t
     t0 = _t.time()
@@ -985,7 +989,8 @@ def run(ctx: vlib.Ctx):
         if d is not None and len(disagreements) < 40:
             disagreements.append({"kind": "history", "driver": case[0], "ops": [_op_show(o) for o in case[1]], **d})
         drv, h = case
-        if bad is None and h[1][0] == "pack" and len(h[1][2]) > 0 and any(o[0] in TRANSPORT for o in h[2:]):
+        k0 = len(PRE)
+        if bad is None and h[k0][0] == "pack" and len(h[k0][2]) > 0 and any(o[0] in TRANSPORT for o in h[k0 + 1:]):
             nontrivial.add((drv, hashlib.sha1(repr(h).encode()).hexdigest()))
     if len(cases) > 4:
         ctx.sample({"case": ["hist", "F", "T", mcases[3][3], [_op_show(o) for o in mcases[3][4]]],
